@@ -258,10 +258,11 @@ func checkTemplate(c *Ctx, r *Report, format string, ti tmplInfo, spec map[strin
 }
 
 func checkC02(c *Ctx, r *Report) {
-	r.Rules = []string{"F3 template wiring (deb, ipk, apk)", "F4 rpm metadata wiring", "F5 archlinux key/value wiring", "F5b deb triggers / changelog extras", "D3 GOARCH tables vs documentation, override precedence", "F6 version slot depends on every configured component", "ipk reserved field names", "F5b-text rpm changelog text is the rendered notes (TrimSpace only)", "F3-funcs template helper functions write through none of their list arguments", "F6-parsed no branch on the value of a parsed epoch/release", "F3-text the description meets only white-space trimming and line-separator operations", "F4-verbatim rpm relation items reach the relation parser as configured", "arch-W3-idempotent architecture tables are chain-free (imported from C11)"}
+	r.Rules = []string{"F3 template wiring (deb, ipk, apk)", "F4 rpm metadata wiring", "F5 archlinux key/value wiring", "F5b deb triggers / changelog extras", "D3 GOARCH tables vs documentation, override precedence", "F6 version slot depends on every configured component", "ipk reserved field names", "F5b-text rpm changelog text is the rendered notes (TrimSpace only)", "F3-funcs template helper functions write through none of their list arguments", "F6-parsed no branch on the value of a parsed epoch/release", "F3-text the description meets only white-space trimming and line-separator operations", "F4-verbatim rpm relation items reach the relation parser as configured", "arch-W3-idempotent architecture tables are chain-free (imported from C11)", "F5b-each each deb trigger list alone still yields a triggers file (by evaluation)", "wired-F15-self relation lists are expanded from themselves (imported from C16)"}
 	r.Explanation = "Wiring of control metadata decided from source. (F3) the deb, ipk and apk control templates — the string constants reaching Template.Parse — are parsed with text/template/parse (never executed) and flattened to label -> fields printed and fields guarding; each label must be fed from exactly the configuration field(s) the statement pairs it with (all relation kinds, identity fields, format extras), optional labels guarded by their own field. (F4) every field of the rpmpack.RPMMetaData literal and (F5) every key of the archlinux key/value writer must derive (field provenance over go/ssa) from exactly its configuration field(s). (F5b) deb trigger directives pair with the like-named trigger lists, the triggers member is written only when non-empty, changelog entries only behind a non-empty changelog setting. (D3) the five GOARCH tables are extracted from the package initialisers and every row of www/docs/goarch-to-pkg.md must hold in code; with a format-specific architecture configured the stored architecture is that value verbatim (abstract evaluation). (F6) with each version component in turn fixed non-empty, the string reaching the rpm Version field, the apk pkgver and the archlinux pkgver must depend on it on every live path. Rendering of concrete text (multi-line descriptions, escaping) is not decided."
 	r.Explanation += " (F5b-text) between the rendered changelog notes and rpm's changelog-text tag only strings.TrimSpace may sit. (F3-funcs) functions registered in the control templates' FuncMaps write through none of their list arguments. (F6-parsed) no branch depends on the value of an epoch/release parsed as an integer."
 	r.Explanation += " (F3-text) in every description helper of a control template, and wherever Info.Description is handed to a library function, only white-space trimming and split/join/replace at constant line separators occur - word-level rewriting changes the synopsis. (F4-verbatim) the string handed to rpmpack's relation parser is a load of a list element, through conversions and phis only. (arch-W3-idempotent) the architecture tables are applied by the file-name function and again by Package: a table with a chain a->b->c states c for a configured a."
+	r.Explanation += " (F5b-each) the trigger renderer evaluated with exactly one of the six lists non-empty never returns the nil constant on all live returns. (wired-F15-self) imported from C16."
 	r.Assumptions = []string{
 		"text/template renders an action with the value of the field chain it names; join/multiline/nonEmpty helpers are not analysed for arbitrary text",
 		"rpmpack writes each RPMMetaData field under its like-named header tag",
@@ -466,6 +467,9 @@ func checkC02(c *Ctx, r *Report) {
 		}
 	}
 	r.Floor("arch-W3-idempotent", nW, 4)
+	// a relation list reaches the packagers as the expansion of itself, not of
+	// a sibling list (rule of C16)
+	r.Floor("wired-F15-self", importRules(c, r, checkC16, "wired-", []string{"F15-self"}, nil), 12)
 }
 
 // descTextAllowed: library calls that may touch the description on its way
@@ -796,6 +800,18 @@ func checkRPMExtras(c *Ctx, r *Report, pk *Packager) {
 			fr := ev.Explore(fn, make([]AV, len(fn.Params)))
 			if fr != nil && !fr.Live(call.Block()) {
 				okGuard = true
+			} else if fr != nil && fr.childFrame(call) != nil {
+				// the guard sits in the callee: with the setting empty no tag
+				// is added inside it
+				added := false
+				for _, li := range fr.LiveInstrs() {
+					if c2, ok := li.In.(*ssa.Call); ok && li.In.Parent() == sc && calleeIs(c2, rpmpackPath, "RPM", "AddCustomTag") {
+						added = true
+					}
+				}
+				if !added {
+					okGuard = true
+				}
 			}
 		})
 	}
@@ -842,6 +858,51 @@ func checkDebExtras(c *Ctx, r *Report, pa *provAnalysis) {
 				}
 			}
 		})
+	}
+	// each list alone: with exactly one trigger list configured the rendering
+	// function still produces output (an early "nothing configured" return
+	// that forgets a list drops that list's directives)
+	if at != nil {
+		fn := at.Parent()
+		var paths []string
+		for _, pth := range specDebTriggers {
+			paths = append(paths, strings.TrimPrefix(pth, "Info."))
+		}
+		sort.Strings(paths)
+		for _, only := range paths {
+			ev := newEvaluator(c)
+			info := newAObj("info")
+			for _, pth := range paths {
+				sl := &avSlice{id: pth}
+				if pth == only {
+					sl.elems = []AV{nil}
+				}
+				info.Fields[pth] = sl
+			}
+			ev.Defaults[c.infoPtrKey()] = info
+			fr := ev.Explore(fn, make([]AV, len(fn.Params)))
+			live, empty := 0, 0
+			var at2 ssa.Instruction
+			if fr != nil {
+				for _, b := range fn.Blocks {
+					ret, isRet := b.Instrs[len(b.Instrs)-1].(*ssa.Return)
+					if !isRet || !fr.Live(b) || len(ret.Results) == 0 {
+						continue
+					}
+					live++
+					if k, isK := retResults(ret)[0].(*ssa.Const); isK && k.IsNil() {
+						empty++
+						at2 = ret
+					}
+				}
+			}
+			pos := c.pos(fn.Pos())
+			if at2 != nil {
+				pos = c.instrPos(at2)
+			}
+			r.Check(live > 0 && empty < live, "F5b-each", "deb triggers rendered with only "+strings.TrimPrefix(only, "Overridables.Deb.Triggers.")+" configured", pos,
+				fmt.Sprintf("%d live return(s), %d of them return nothing: with this list as the only configured one the triggers file would be missing", live, empty))
+		}
 	}
 	var dirs []string
 	for d := range specDebTriggers {
